@@ -12,7 +12,7 @@ EXPLANATION = (
     "Contract-based: _pop_line_before_zid and _add_zid_to_line are verified against a specification of the rewritten first "
     "line written from the statement (ZID after the kind/priority prefix, replacing a leading YYYY-MM-DD word), for every "
     "first line of a bounded number of fully symbolic words (bounded-symbolic: reported as bounded). "
-    "_update_zo_file - the write-back both handlers use - is verified over the file-system model: the page becomes exactly the old lines with the first line of every note to update passed through the line function (every other line byte-identical), only the page and the hash file change, and only the page's own hash entry is refreshed (pages <= 3 / 5 lines, <= 2 notes, lines / ZIDs / line numbers fully symbolic, line function and value getter uninterpreted; _get_file_hash_path / _write_file_hash_to_disk / _hash_file assumed). "
+    "_update_zo_file - the write-back both handlers use - is verified over the file-system model: the page becomes exactly the old lines with the first line of every note to update passed through the line function (every other line byte-identical), only the page and the hash file change, and only the page's own hash entry is refreshed (pages <= 3 / 4 lines, <= 2 notes, lines / ZIDs / line numbers fully symbolic, line function and value getter uninterpreted; _get_file_hash_path / _write_file_hash_to_disk / _hash_file assumed). "
     "create_database is verified against an abstract index (page name -> content it was compiled from; ORM / compiler / directory "
     "listing as stubs): a fresh index afterwards holds exactly the pages on disk with their current contents, the stored hash map "
     "describes it, no page is written by the command itself, and it refuses exactly when a page has syntax errors and the "
